@@ -48,7 +48,9 @@ WRITE_OPS = c17.WRITE_OPS + ['update_rp', 'update_rp', 'post_allocations',
                              'post_allocations_existing',
                              'delete_allocations_held',
                              'delete_allocations_held',
-                             'put_rp_aggregates_swap']
+                             'put_rp_aggregates_swap',
+                             'put_rp_traits_swap', 'put_rp_traits_swap',
+                             'put_allocations_existing_old']
 
 
 def core(d):
